@@ -175,3 +175,25 @@ Proof.
   repeat split; try lra.
   rewrite tie_logistic_static by lra. rewrite doc_logistic_at_reference. replace (1 + 2) with 3 by lra. reflexivity.
 Qed.
+
+(** the two other shipped kinds with a logistic longitudinal part *)
+Lemma tie_mixture_traj_w log_g log_v0 xi tau w t :
+  gen_mixture_traj_w log_g log_v0 xi tau w t = doc_logistic (exp log_g) (exp log_v0) xi tau w t.
+Proof.
+  rewrite doc_logistic_sigmoid by apply exp_pos.
+  unfold gen_mixture_traj_w. logit. field. expnz.
+Qed.
+
+Lemma tie_joint_traj_w log_g log_v0 xi tau w t :
+  gen_joint_traj_w log_g log_v0 xi tau w t = doc_logistic (exp log_g) (exp log_v0) xi tau w t.
+Proof.
+  rewrite doc_logistic_sigmoid by apply exp_pos.
+  unfold gen_joint_traj_w. logit. field. expnz.
+Qed.
+
+Lemma tie_joint_traj log_g log_v0 xi tau t :
+  gen_joint_traj log_g log_v0 xi tau t = doc_logistic (exp log_g) (exp log_v0) xi tau 0 t.
+Proof.
+  rewrite doc_logistic_sigmoid by apply exp_pos.
+  unfold gen_joint_traj. logit. field. expnz.
+Qed.
